@@ -324,6 +324,56 @@ __CPROVER_assigns(fv, fv_n, g_sort_calls, g_sort_n)
                       desc="Simplex_tree::initialize_filtration(Comparator, Ignorer)" + (" (GUDHI_USE_TBB branch)" if tbb else "") + ": whatever the cache held before, afterwards it lists every non-ignored simplex of the complex exactly once and no ignored one, and was sorted as a whole exactly once ('It always recomputes the cache, even if one already exists')"))
     return U
 
+def mfnd_units():
+    """Simplex_tree::make_filtration_non_decreasing: (a) the per-simplex visitor (the lambda handed to for_each_simplex):
+    a simplex of positive dimension takes the maximum of its own value and the values of its boundary simplices, and
+    `modified` records whether anything changed; (b) the wrapper: the cache is dropped exactly when something changed and
+    that flag is returned.  The boundary range is a ghost array; intersect_lifetimes is replaced by its contract."""
+    U = []
+    NB = 4
+    sig_i = r"bool intersect_lifetimes\(Arithmetic_filtration_value& f1, const Arithmetic_filtration_value& f2\)"
+    c_il = """
+__CPROVER_requires(!isnan(*f1) && !isnan(f2))
+__CPROVER_ensures(*f1 == (__CPROVER_old(*f1) < f2 ? f2 : __CPROVER_old(*f1)))
+__CPROVER_ensures(__CPROVER_return_value == (__CPROVER_old(*f1) < f2))
+__CPROVER_assigns(*f1)
+"""
+    f_il = Fn(FU, sig_i, "intersect_lifetimes", c_il, constexpr=[(r"std::numeric_limits<Arithmetic_filtration_value>::has_quiet_NaN", True)], subs=[(r"std::isnan", "isnan", 0)])
+    G = (f"#include <math.h>\n#define NB {NB}\ntypedef double Filtration_value; typedef double Arithmetic_filtration_value; typedef size_t Simplex_handle;\n"
+         "double g_filt[NB + 1]; size_t g_nb; bool modified;\n"
+         "static double x_max(void) { double m = g_filt0; for (size_t k = 0; k < NB; k++) if (k < g_nb && m < g_filt[k + 1]) m = g_filt[k + 1]; return m; }\n"
+         "static bool vals_ok(void) { bool ok = g_nb <= NB && !isnan(g_filt[0]); for (size_t k = 0; k < NB; k++) ok = ok && !isnan(g_filt[k + 1]); return ok; }\n"
+         "double nondet_double(void); size_t nondet_size(void); int nondet_int(void); bool nondet_bool(void);\n").replace("double g_filt[NB + 1];", "double g_filt[NB + 1]; double g_filt0;")
+    con = """
+__CPROVER_requires(vals_ok() && sh == 0 && g_filt0 == g_filt[0])
+__CPROVER_ensures(dim == 0 ? (g_filt[0] == g_filt0 && modified == __CPROVER_old(modified)) : (g_filt[0] == x_max() && modified == (__CPROVER_old(modified) || g_filt[0] != g_filt0)))
+__CPROVER_assigns(g_filt[0], modified)
+"""
+    f_vis = Fn(ST, r"bool make_filtration_non_decreasing\(\)", "mfnd_visit", con,
+               piece={"kind": "lambda", "name": "fun", "sig": "void mfnd_visit(Simplex_handle sh, int dim)"},
+               subs=[(r"Filtration_value& (\w+) = _to_node_it\(sh\)->second\.filtration\(\);", r"Filtration_value* vp_cur = &g_filt[sh];\n#define \1 (*vp_cur)"),
+                     (r"for \(Simplex_handle (\w+) : boundary_simplex_range\(sh\)\) \{", r"for (size_t vp_b = 0; vp_b < g_nb; vp_b++) { Simplex_handle \1 = vp_b + 1;"),
+                     (r"(\w+)->second\.filtration\(\)", r"g_filt[\1]"),
+                     (r"intersect_lifetimes\(current_filt, ", "intersect_lifetimes(vp_cur, ")],
+               canary=(r"if \(dim == 0\) return;", "if (dim <= 1) return;"))
+    U.append(Unit("value.make_filtration_non_decreasing.visit", "C03", [f_il, f_vis], enforce="mfnd_visit", replace=["intersect_lifetimes"], globals_=G, unwind=NB + 2,
+                  route="B", bound=f"simplices with at most {NB} boundary simplices (dimension <= {NB - 1}); values symbolic, non-NaN", inputs=["in_dim", "g_nb", "g_filt"],
+                  replay=replay_by_native_search,
+                  harness="int main(void) {\n  int in_dim = nondet_int(); g_nb = nondet_size(); modified = nondet_bool();\n  for (int k = 0; k <= NB; k++) g_filt[k] = nondet_double();\n  g_filt0 = g_filt[0];\n  mfnd_visit(0, in_dim);\n  __CPROVER_assert(0, \"VP_REACH\");\n  return 0;\n}\n",
+                  desc="make_filtration_non_decreasing, visitor of one simplex: a vertex is left alone; any other simplex ends at the maximum of its value and its boundary simplices' values, and the modified flag is raised exactly when its value changed (never lowered)"))
+    G2 = "unsigned g_fes_calls, g_clear_calls; bool g_fes_result; bool nondet_bool(void);\nstatic void for_each_simplex_stub(bool* m) { g_fes_calls++; *m = *m || g_fes_result; }\nstatic void clear_filtration(void) { g_clear_calls++; }\n"
+    f_w = Fn(ST, r"bool make_filtration_non_decreasing\(\)", "make_filtration_non_decreasing", """
+__CPROVER_requires(g_fes_calls == 0 && g_clear_calls == 0)
+__CPROVER_ensures(__CPROVER_return_value == g_fes_result && g_fes_calls == 1)
+__CPROVER_ensures(g_clear_calls == (g_fes_result ? 1 : 0))
+__CPROVER_assigns(g_fes_calls, g_clear_calls)
+""", subs=[(r"for_each_simplex\((\w+)\);", r"for_each_simplex_stub(&modified);")], canary=(r"return modified;", "return !modified;"))
+    U.append(Unit("value.make_filtration_non_decreasing.cache", "C03", [f_w], enforce="make_filtration_non_decreasing", globals_=G2, inputs=["g_fes_result"],
+                  replay=replay_by_native_search,
+                  harness="int main(void) {\n  g_fes_result = nondet_bool(); g_fes_calls = 0; g_clear_calls = 0;\n  make_filtration_non_decreasing();\n  __CPROVER_assert(0, \"VP_REACH\");\n  return 0;\n}\n",
+                  desc="make_filtration_non_decreasing, wrapper: every simplex is visited once (for_each_simplex), the filtration cache is dropped exactly when a value changed, and that is what is returned"))
+    return U
+
 NATIVE_RESULTS = []
 
 
@@ -375,6 +425,7 @@ def units(tier):
     U += prune_units()
     U += ignorer_units()
     U += cache_units()
+    U += mfnd_units()
     U += extended_units(tier)
     # K6: the cubical comparator (shared with C13)
     for u in c13.comparator_units():
